@@ -183,8 +183,9 @@ Proof.
   destruct (N.eqb b 36 && negb ol) eqn:E36.
   { pose proof (byte_ascb bs Hvalid p b Eb ltac:(byte_ascii)) as Ha.
     xstep. call (get_identifier_spec bs Hvalid F); [auto|]. xstep. fin'. }
-  destruct (is_ascii_alphabetic b) eqn:Eal.
-  { pose proof (byte_ascb bs Hvalid p b Eb (alpha_ascii b Eal)) as Ha.
+  destruct (is_ascii_alphabetic b && negb ol) eqn:Eal'.
+  { assert (Eal : is_ascii_alphabetic b = true) by (apply andb_prop in Eal' as [Eal' _]; exact Eal').
+    pose proof (byte_ascb bs Hvalid p b Eb (alpha_ascii b Eal)) as Ha.
     xstep. call0 (get_identifier_unchecked_spec bs Hvalid F); [lia | replace (S p - 1) with p by lia; exact Ha |].
     call IHca; [assumption | fuel |].
     destruct a0 as [args|].
